@@ -5,7 +5,7 @@ CONSTANTS
   RefsAtIgnoresBlock = FALSE
   KeepStaleRad = FALSE
   SkipUnloaded = FALSE
-  Family = {"focus", "refsat", "scope"}
+  Family = {"delegates", "blockdel"}
   Junks = {"none", "extra"}
   DelCount = {1, 2, 3}
   LocalChoices = {0, 1}
